@@ -408,3 +408,11 @@ func itoa(i int) string {
 	}
 	return string(b)
 }
+
+// DominatesInstr reports whether instruction a is executed before b on every path that reaches b.
+func DominatesInstr(a, b ssa.Instruction) bool {
+	if a.Block() == b.Block() {
+		return IndexIn(a) < IndexIn(b)
+	}
+	return a.Block().Dominates(b.Block())
+}
